@@ -7,6 +7,8 @@ package chainsim
 
 import (
 	"bytes"
+	"encoding/json"
+	"strconv"
 	"fmt"
 	"sort"
 	"time"
@@ -188,12 +190,42 @@ func (c *Chain) SyncAccount(a *Account) bool {
 	if q.Error != nil || len(q.Data) == 0 || string(q.Data) == "null" {
 		return false
 	}
-	var acc gnoland.GnoAccount
-	if err := amino.UnmarshalJSON(q.Data, &acc); err != nil {
+	// The JSON shape depends on the concrete account type (GnoAccount, vesting
+	// wrappers…): find account_number and sequence wherever they are nested.
+	var raw any
+	if err := json.Unmarshal(q.Data, &raw); err != nil {
 		panic(fmt.Sprintf("SyncAccount: cannot decode %s: %v", q.Data, err))
 	}
-	a.AccNum, a.Seq, a.Known = acc.AccountNumber, acc.Sequence, true
+	num, ok1 := findUint(raw, "account_number")
+	seq, ok2 := findUint(raw, "sequence")
+	if !ok1 || !ok2 {
+		panic(fmt.Sprintf("SyncAccount: no account_number/sequence in %s", q.Data))
+	}
+	a.AccNum, a.Seq, a.Known = num, seq, true
 	return true
+}
+
+func findUint(v any, key string) (uint64, bool) {
+	switch t := v.(type) {
+	case map[string]any:
+		if x, ok := t[key]; ok {
+			if s, ok := x.(string); ok {
+				n, err := strconv.ParseUint(s, 10, 64)
+				return n, err == nil
+			}
+		}
+		keys := make([]string, 0, len(t))
+		for k := range t {
+			keys = append(keys, k)
+		}
+		sort.Strings(keys)
+		for _, k := range keys {
+			if n, ok := findUint(t[k], key); ok {
+				return n, true
+			}
+		}
+	}
+	return 0, false
 }
 
 // Fee builds a fee.
